@@ -634,6 +634,22 @@ func (it *Interp) and(a, b Value) Value {
 	return fromTerm(it.tt.And(a.Ref.(*Term), b.Ref.(*Term)))
 }
 
+func (it *Interp) or(a, b Value) Value {
+	if a.Ref == nil {
+		if a.Bits != 0 {
+			return a
+		}
+		return b
+	}
+	if b.Ref == nil {
+		if b.Bits != 0 {
+			return b
+		}
+		return a
+	}
+	return fromTerm(it.tt.Or(a.Ref.(*Term), b.Ref.(*Term)))
+}
+
 // ---- unary ----
 
 func (it *Interp) unop(ins *ssa.UnOp, x Value) Value {
